@@ -149,6 +149,26 @@ fn lookup_oracle(out: &mut Out, v: &Value, rv: &RV, reply: &str) {
                     && o.contains_key(key)
                     && match o.get_unique(key) { Ok(Some(x)) => idx.len() == 1 && &to_rv(x) == vals[0], Ok(None) => false, Err(_) => idx.len() > 1 };
                 out.oracle(ok, "key lookups on a parsed object = reference entries with that key, in source order", || format!("key {:?}: indexes_of {:?} (want {:?}), get {:?} in {}", k, got_idx, idx, got_vals, reply));
+                // the mutable twins (their own iterators) find the same entries
+                {
+                    let mut oc = o.clone();
+                    let got_mut: Option<Vec<RV>> = std::panic::catch_unwind(std::panic::AssertUnwindSafe(|| oc.get_mut(key).map(|v| to_rv(v)).collect())).ok();
+                    let mut oc2 = o.clone();
+                    let um_ok = match oc2.get_unique_mut(key) { Ok(Some(x)) => idx.len() == 1 && &to_rv(x) == vals[0], Ok(None) => false, Err(_) => idx.len() > 1 };
+                    let ue_ok = match o.get_unique_entry(key) { Ok(Some(e)) => idx.len() == 1 && e.key.as_str() == key && &to_rv(&e.value) == vals[0], Ok(None) => false, Err(_) => idx.len() > 1 };
+                    out.oracle(got_mut.as_ref().map_or(false, |g| g.iter().collect::<Vec<_>>() == vals) && um_ok && ue_ok, "get_mut / get_unique_mut / get_unique_entry on a parsed object = reference entries with that key", || format!("key {:?}: get_mut {:?} (want {} values) in {}", k, got_mut.as_ref().map(|g| g.len()), vals.len(), reply));
+                }
+            }
+            // whole-object iteration in source order through every entry point
+            {
+                let want: Vec<(&str, &RV)> = r.iter().map(|(k, v)| (k.as_str(), v)).collect();
+                let a: Vec<(String, RV)> = o.iter().map(|e| (e.key.to_string(), to_rv(&e.value))).collect();
+                let b: Vec<(String, RV)> = o.into_iter().map(|e| (e.key.to_string(), to_rv(&e.value))).collect();
+                let c: Vec<(String, RV)> = o.clone().into_iter().map(|e| (e.key.to_string(), to_rv(&e.value))).collect();
+                let mut om = o.clone();
+                let d: Vec<(String, RV)> = om.iter_mut().map(|(k, v)| (k.to_string(), to_rv(v))).collect();
+                let same = |x: &Vec<(String, RV)>| x.len() == want.len() && x.iter().zip(want.iter()).all(|(p, q)| p.0 == q.0 && &p.1 == q.1);
+                out.oracle(same(&a) && same(&b) && same(&c) && same(&d) && o.len() == want.len() && o.first().map(|e| e.key.as_str()) == want.first().map(|p| p.0) && o.last().map(|e| e.key.as_str()) == want.last().map(|p| p.0), "iter / into_iter / iter_mut / first / last of a parsed object = reference entries in source order", || reply.to_string());
             }
             // a key that does not occur
             let mut absent = String::from("~absent");
